@@ -89,8 +89,10 @@ def check_export_forms(ctx, key, is_private, orig_numbers, jwk, rep, extra):
                   ("pem-default", lambda: key.as_pem()), ("der-default", lambda: key.as_der())]
         if is_private:
             forms += [("pem-private", lambda: key.as_pem(private=True)), ("der-private", lambda: key.as_der(private=True)),
-                      ("pem-password", lambda: key.as_pem(private=True, password="s3cret")),
-                      ("der-password", lambda: key.as_der(private=True, password="s3cret"))]
+                      ("pem-password", lambda: key.as_pem(private=True, password=PW[0])),
+                      ("der-password", lambda: key.as_der(private=True, password=PW[0]))]
+            # a password is a string of octets: white space at its ends belongs to it
+            PW[0] = ["s3cret", " s3cret", "s3cret\n", "\ts3 cret ", "s3cret\r\n", b"s3cret\x0c", b" \x00s3cret"][ctx.rng.randrange(7)]
     for fname, f in forms:
         ctx.ev()
         case = {**case0, "form": fname}
@@ -125,7 +127,7 @@ def check_export_forms(ctx, key, is_private, orig_numbers, jwk, rep, extra):
                         ctx.violation("extra-parameter-lost", f"extra parameter {k2}={v2!r} exported as {out.get(k2)!r} ({fname})", case)
             back = call(cls.import_key, copy.deepcopy(out))
         else:
-            pw = "s3cret" if "password" in fname else None
+            pw = PW[0] if "password" in fname else None
             is_pem = out.lstrip().startswith(b"-----BEGIN ")
             if fname.startswith("der") and (is_pem or out[:1] != b"\x30"):
                 ctx.violation("der-export-not-der", f"{fname} export is not DER (starts with {out[:12]!r})", case)
@@ -313,6 +315,77 @@ def malformed(ctx, jwk, rng):
 OPEN_CLASSES = ("retyped-key_ops-str",)
 
 
+PW = ["s3cret"]
+MARKER_WORDS = [b"PUBLIC", b"PRIVATE", b"CERTIFICATE", b"OPENSSH PRIVATE", b"SSH2", b"BEGIN", b"ENCRYPTED", b"ssh-ed25519 ", b"ssh-rsa", b"-----"]
+
+
+def marker_word_keys(ctx, rng):
+    """valid keys whose exported octets happen to contain a word that import code may sniff for ("PUBLIC", "PRIVATE", "CERTIFICATE", "SSH2" ...):
+    in the DER octets themselves, or in the base64 body of the PEM.  Rare by chance (2^-24 .. 2^-48 per key), made on purpose here with X25519
+    and Ed25519 keys, where any 32 octets are a private key (and, for X25519, a public key).  Export then import gives the same key."""
+    import base64
+    from cryptography.hazmat.primitives.asymmetric.x25519 import X25519PrivateKey
+    from cryptography.hazmat.primitives.asymmetric.ed25519 import Ed25519PrivateKey
+    from cryptography.hazmat.primitives import serialization as ser
+    j = J.load()
+    for word in MARKER_WORDS:
+        for where in ("der-octets", "pem-body"):
+            if where == "pem-body":
+                w = word.replace(b" ", b"/").replace(b"-", b"+")
+                if any(c not in b"ABCDEFGHIJKLMNOPQRSTUVWXYZabcdefghijklmnopqrstuvwxyz0123456789+/" for c in w):
+                    continue
+                try:
+                    chunk = base64.b64decode(w + b"A" * ((-len(w)) % 4))
+                except Exception:
+                    continue
+            else:
+                w, chunk = word, word
+            for crv, cls in (("X25519", X25519PrivateKey), ("Ed25519", Ed25519PrivateKey)):
+                for private in (True, False):
+                    if not private and crv != "X25519":
+                        continue   # an Ed25519 public key must be a curve point
+                    hit = None
+                    for off in range(0, 12):
+                        raw = (bytes([0x51 + off]) * off + chunk + bytes([0x61]) * 32)[:32]
+                        if private:
+                            nat = cls.from_private_bytes(raw)
+                            x = nat.public_key().public_bytes(ser.Encoding.Raw, ser.PublicFormat.Raw)
+                            jwk = {"kty": "OKP", "crv": crv, "x": b64u_enc(x), "d": b64u_enc(raw)}
+                        else:
+                            jwk = {"kty": "OKP", "crv": crv, "x": b64u_enc(raw)}
+                        k = call(j.key, jwk)
+                        if not k.ok:
+                            continue
+                        for fmt in ("pem", "der"):
+                            e = call(k.value.as_pem if fmt == "pem" else k.value.as_der, private=private)
+                            if not e.ok:
+                                continue
+                            body = b"".join(e.value.split(b"\n")[1:-2]) if fmt == "pem" else e.value
+                            if (where == "pem-body" and fmt == "pem" and w in body) or (where == "der-octets" and fmt == "der" and w in body):
+                                hit = (jwk, fmt, e.value)
+                                break
+                        if hit:
+                            break
+                    if not hit:
+                        ctx.count("marker_word_not_crafted")
+                        continue
+                    jwk, fmt, data = hit
+                    ctx.ev()
+                    back = call(j.OKPKey.import_key, data)
+                    ctx.count("marker_word_roundtrips")
+                    ctx.nontrivial(("marker", word, where, crv, private))
+                    ctx.cell("marker-word", word.decode().strip(), where, "private" if private else "public")
+                    case = {"word": word.decode(), "where": where, "crv": crv, "private": private, "jwk": gen.public_jwk(jwk), "format": fmt}
+                    if not back.ok:
+                        ctx.violation(f"reimport-fails:marker-word:{where}", f"a valid {crv} {'private' if private else 'public'} key whose {fmt.upper()} export contains the octets "
+                                      f"{word!r} ({where}) cannot be imported again: {back.exc!r}", case)
+                        continue
+                    d2 = call(back.value.as_dict, private=private)
+                    if not d2.ok or d2.value.get("x") != jwk["x"] or (private and d2.value.get("d") != jwk["d"]) or bool(back.value.is_private) != private:
+                        ctx.violation(f"material-differs:marker-word:{where}", f"a {crv} key whose {fmt.upper()} export contains {word!r} comes back as another key "
+                                      f"(private={back.value.is_private})", case)
+
+
 def import_order_cases(ctx):
     """every curve and key type is importable, generatable and exportable whichever joserfc module a process imports first"""
     from .. import importorder as IO
@@ -361,6 +434,8 @@ def run_shard(ctx):
     rng = ctx.rng
     if ctx.shard == 4:
         import_order_cases(ctx)
+    if ctx.shard == 5:
+        marker_word_keys(ctx, rng)
     kinds = list(K.KINDS) + list(K.UNUSUAL_RSA)
     if ctx.tier == "thorough":
         kinds += ["RSA:3072"] + (["RSA:4096"] if ctx.shard == 0 else [])
